@@ -2,7 +2,7 @@
 # seed_eval.sh <ID> [<check ID>...] — confirm every change delivered in /tmp/wt_<ID>/SEEDED/<k> and run the quick checks
 # (default: the property's own) against it through the worktree (tools/try_seeded_wt.sh). Log: /tmp/seedlogs/<ID>.log
 ID="$1"; shift; CHECKS="${*:-$ID}"
-WT=/tmp/wt_$ID; mkdir -p /tmp/seedlogs; LOG=/tmp/seedlogs/$ID.log; : > $LOG
+WT=${WTPREFIX:-/tmp/wt_}$ID; mkdir -p /tmp/seedlogs; LOG=/tmp/seedlogs/${LOGTAG:-}$ID.log; : > $LOG
 export CARGO_TARGET_DIR=$WT/target
 for d in $WT/SEEDED/*/; do
   k=$(basename $d)
